@@ -86,3 +86,44 @@ def as_membership(prog, expand, expr, pol):
                     is_absent = pol == isinstance(op, ast.Is)
                     return U(x.args[0]), U(coll), not is_absent
     return None
+
+
+def lookup_tries(prog, f):
+    """Membership asked by trying: an unconditional statement of f
+
+        try: D[k]            (or  x = D[k])
+        except KeyError: ...
+
+    with nothing else in the try body and D an attribute that starts as an
+    empty dict display (a plain dict: no __missing__).  Returns
+    [(try node, key text, mapping text)]: a path through the handler has
+    `k not in D`, every path that leaves the body normally has `k in D`."""
+    out = []
+    for st in f.node.body:
+        if not (isinstance(st, ast.Try) and len(st.body) == 1
+                and not st.finalbody):
+            continue
+        b = st.body[0]
+        v = b.value if isinstance(b, (ast.Expr, ast.Assign)) else None
+        if not (isinstance(v, ast.Subscript) and not any(
+                isinstance(n, ast.Call) for n in ast.walk(v))):
+            continue
+        names = set()
+        for h in st.handlers:
+            ts = h.type.elts if isinstance(h.type, ast.Tuple) else [h.type]
+            names |= {U(x) for x in ts if x is not None}
+        if names != {'KeyError'}:
+            continue
+        coll = v.value
+        if not isinstance(coll, ast.Attribute):
+            continue
+        plain = any(
+            isinstance(n, ast.Assign) and any(
+                isinstance(tg, ast.Attribute) and tg.attr == coll.attr
+                for tg in n.targets) and isinstance(n.value, ast.Dict)
+            and not n.value.keys
+            for g in prog.functions.values() if g.name == '__init__'
+            for n in ast.walk(g.node))
+        if plain:
+            out.append((st, U(v.slice), U(coll)))
+    return out
